@@ -191,6 +191,11 @@ func (c rsCase) obj(n string, part int) ordObj {
 				vs = append(vs, ordObj{{c.kwKey("@id"), c.idForm(x)}})
 			}
 		}
+		if c.Choice.KeyOrder { // the values of a key are a set: their order is spelling too
+			for i, j := 0, len(vs)-1; i < j; i, j = i+1, j-1 {
+				vs[i], vs[j] = vs[j], vs[i]
+			}
+		}
 		if c.Choice.Repeat {
 			vs = append(vs, vs[0])
 		}
@@ -353,6 +358,10 @@ validations:
     message: values reached must be unique
     propertyConstraints:
       ex.p / ex.r:
+        uniqueValues: true
+      ex.q / ex.r:
+        uniqueValues: true
+      ex.q / (ex.r | ex.p):
         uniqueValues: true
       ex.q / ex.p | ex.q / ex.q:
         uniqueValues: true
